@@ -167,3 +167,85 @@ class Conn(object):
             "delivered": self.queue.items[q0:],
             "live_timers": len(self.loop.live()),
         }
+
+
+# --------------------------------------------------------------------------------------
+# the real asyncio event loop on a virtual clock
+# --------------------------------------------------------------------------------------
+
+class VirtualLoop(asyncio.SelectorEventLoop):
+    """asyncio's own selector event loop (its timer heap, handle cancellation and `_run_once` scheduling) with
+    `time()` replaced by an integer virtual clock that jumps to the next scheduled handle when nothing is ready"""
+
+    def __init__(self):
+        super().__init__()
+        self._vt = 0
+        self.fired_log = []          # deadlines of the timer handles that were run (other than the harness's own)
+
+    def time(self):
+        return self._vt
+
+    def call_at(self, when, callback, *args, context=None):
+        if getattr(callback, "_verif_own", False):
+            return super().call_at(when, callback, *args, context=context)
+
+        def logged(*a):
+            self.fired_log.append(when)
+            return callback(*a)
+        return super().call_at(when, logged, *args, context=context)
+
+    def _run_once(self):
+        import heapq
+        while self._scheduled and self._scheduled[0]._cancelled:
+            h = heapq.heappop(self._scheduled)
+            h._scheduled = False
+            self._timer_cancelled_count -= 1
+        if not self._ready and self._scheduled and self._scheduled[0]._when > self._vt:
+            self._vt = self._scheduled[0]._when
+        super()._run_once()
+
+    def live(self):
+        return [h for h in self._scheduled if not h._cancelled and not getattr(h._callback, "_verif_own", False)]
+
+    def advance(self, t):
+        """run the loop until virtual time t; every timer with deadline <= t fires; returns their deadlines"""
+        n0 = len(self.fired_log)
+
+        def stop():
+            self.stop()
+        stop._verif_own = True
+        self.call_at(t, stop)
+        self.run_forever()
+        self._vt = max(self._vt, t)
+        return list(self.fired_log[n0:])
+
+
+class RealLoopConn(Conn):
+    """the real ASTMProtocol on asyncio's real event loop (virtual clock), fake transport, list queue"""
+
+    def __init__(self, fmt="json", queue=None, timeout=None, peer=("10.0.0.1", 4711), use_default_fmt=False):
+        private_cwd()
+        from senaite.astm.protocol import ASTMProtocol
+        self.loop = VirtualLoop()
+        old = ensure_loop()
+        asyncio.set_event_loop(self.loop)
+        try:
+            kw = {}
+            if not use_default_fmt:
+                kw["message_format"] = fmt
+            if timeout is not None:
+                kw["timeout"] = timeout
+            self.queue = queue if queue is not None else ListQueue()
+            kw["queue"] = self.queue
+            self.p = ASTMProtocol(**kw)
+            self.p.loop = self.loop
+            self.t = FakeTransport(peer)
+            self.p.connection_made(self.t)
+        finally:
+            asyncio.set_event_loop(old)
+
+    def close(self):
+        try:
+            self.loop.close()
+        except Exception:
+            pass
